@@ -184,8 +184,16 @@ def gen_case(rng, root, defect="draw"):
         sub, path = rng.choice(subs)
         parent, pstep, spec = find_spec(ch, path)
         desc["at_depth"] = len(path)
-        # the defect must be decisive: make the delegating functionary's evidence necessary
-        pstep["threshold"] = len(pstep["links"])
+        # the defect is decisive (the delegating functionary's evidence is necessary) - or, for defects that make the
+        # delegated layout itself fail, it is NOT: the step has enough other evidence and asks for less than it has.
+        # A failure anywhere in the tree fails the whole verification either way.
+        fails_sub = defect in ("expired", "sublinks_missing", "sublinks_in_parent_dir", "sublink_tampered", "subrule",
+                               "subinspection_fail", "subinspection_slow")
+        if fails_sub and len(pstep["links"]) >= 2 and rng.random() < 0.5:
+            pstep["threshold"] = 1
+            desc["decisive"] = False
+        else:
+            pstep["threshold"] = len(pstep["links"])
         if defect == "wrong_signer":
             others = [k for k in pstep["keys"] if k is not spec["k"]] or [k for k in W.pool() if k is not spec["k"]]
             sub.owners = [rng.choice(others)]
